@@ -412,7 +412,9 @@ Proof.
     intros st' E Hd; inversion E; subst; exact Hd.
   - unfold insert_new_segment. destruct (close_spec cfg st) as [H1 H2].
     destruct (close_and_add_segment cfg st) as [st1|k|x]; simpl.
-    + split; [rawsolve|]. intros st' E Hd. inversion E; subst; simpl. apply (H2 st1 eq_refl Hd).
+    + destruct (negb (in_memory cfg s)).
+      * split; [rawsolve|discriminate].
+      * split; [rawsolve|]. intros st' E Hd. inversion E; subst; simpl. apply (H2 st1 eq_refl Hd).
     + split; [rawsolve|discriminate].
     + split; [exact H1|discriminate].
   - unfold insert_reserve_bits.
